@@ -619,9 +619,12 @@ def callee_summary_tokens(callee, depth=0, facts=None):
 
 
 class Deps:
-    def __init__(self, fn, blocks=None, _summary_depth=0):
-        """blocks: restrict to statements of these blocks (e.g. one arm of a branch plus the common prefix)"""
+    def __init__(self, fn, blocks=None, _summary_depth=0, expand_fields=False):
+        """blocks: restrict to statements of these blocks (e.g. one arm of a branch plus the common prefix);
+        expand_fields: a read of a private integer field also carries the provenance of everything stored into it"""
         self.fn = fn
+        if not expand_fields:
+            self._no_field_expand = True
         self.blocks = blocks
         self._summary_depth = _summary_depth
         self.direct = defaultdict(set)  # local -> set of tokens
@@ -630,12 +633,32 @@ class Deps:
 
     def _tokens_of_place(self, p):
         toks = {('local', p['l'])}
-        for e in p['p']:
+        for i, e in enumerate(p['p']):
             if 'f' in e and e.get('n') is not None:
                 toks.add(('field', e['n']))
+                fst = self._field_sources()
+                if fst:
+                    owner = place_prefix_type(self.fn, p, i)
+                    if owner is not None and owner.get('k') == 'adt':
+                        toks |= fst.get((owner.get('path'), e['n']), frozenset())
             if 'idx' in e:
                 toks.add(('local', e['idx']))
         return toks
+
+    def _field_sources(self):
+        """{(adt, field): tokens of everything the crate ever stores into that private field}: a value cached in a struct
+        (`cluster_size: fs.cluster_size()`) still comes from where it was computed"""
+        if getattr(self, '_no_field_expand', False):
+            return None
+        facts = getattr(self.fn, 'facts_ref', None)
+        if facts is None:
+            return None
+        tab = facts.__dict__.get('_field_store_tokens')
+        if tab is None:
+            facts.__dict__['_field_store_tokens'] = {}  # guards against re-entry while it is being built
+            tab = _build_field_store_tokens(facts)
+            facts.__dict__['_field_store_tokens'] = tab
+        return tab
 
     def _tokens_of_operand(self, o):
         p = op_place(o)
@@ -729,6 +752,41 @@ class Deps:
             if tk[0] == 'local':
                 toks |= self.of_local(tk[1])
         return toks
+
+
+def _build_field_store_tokens(facts):
+    try:
+        from rules.fieldinv import candidates, _owner_field, _copies_same_field
+    except Exception:
+        return {}
+    cands = candidates(facts)
+    out = {}
+    keep = ('call', 'const', 'constpath', 'op', 'field')
+    for fn in facts.fns.values():
+        if fn.crate != 'fatfs':
+            continue
+        sites = []
+        for bi in fn.reachable():
+            for s in fn.blocks[bi]['stmts']:
+                if s['k'] != 'assign':
+                    continue
+                rv = s['rv']
+                if s['lhs']['p'] and rv['k'] == 'use':
+                    k = _owner_field(fn, s['lhs'])
+                    if k in cands and not _copies_same_field(fn, rv['a'], k):
+                        sites.append((k, rv['a']))
+                if rv['k'] == 'agg' and rv.get('ak') == 'adt':
+                    for fname, o in zip(rv.get('fields') or [], rv.get('ops') or []):
+                        k = (rv.get('adt'), fname)
+                        if k in cands and not _copies_same_field(fn, o, k):
+                            sites.append((k, o))
+        if not sites:
+            continue
+        d = Deps(fn)
+        for k, o in sites:
+            toks = frozenset(tk for tk in d.of_operand(o) if tk[0] in keep)
+            out[k] = out.get(k, frozenset()) | toks
+    return out
 
 
 # ---------------------------------------------------------------------------------------------
